@@ -75,7 +75,9 @@ pub fn frag_len(rng: &mut Rng, leftover: usize, big: bool) -> usize {
         12 => rem + 16,
         13 => rem + 48,
         14 => {
-            if big {
+            if big && rng.chance(1, 20) {
+                crate::scn::hashctx::big_len(rng, false)
+            } else if big {
                 rng.range(64, 4096) as usize
             } else {
                 rng.below(80) as usize
@@ -121,7 +123,7 @@ fn forced_bytes(key: &[u8; 32], log: &[u8], op: &Op) -> Option<Vec<u8>> {
 }
 
 fn frag_bytes(op: &Op) -> Vec<u8> {
-    let len = (op.len as usize).min(8192);
+    let len = (op.len as usize).min(300_000);
     if op.arg >= 1 && op.arg as usize <= CRAFTED.len() {
         // crafted block repeated/truncated to len
         let b = &CRAFTED[op.arg as usize - 1];
